@@ -9,6 +9,7 @@ import (
 	"github.com/zishang520/engine.io-go-parser/packet"
 	"github.com/zishang520/engine.io/v2/log"
 	"github.com/zishang520/engine.io/v2/types"
+	"github.com/zishang520/engine.io/v2/vhook"
 	"github.com/zishang520/engine.io/v2/webtransport"
 )
 
@@ -122,6 +123,7 @@ func (w *webTransport) Send(packets []*packet.Packet) {
 	go w.send(packets)
 }
 func (w *webTransport) send(packets []*packet.Packet) {
+	vhook.Yield("wt.send.start")
 	defer func() {
 		w.Emit("drain")
 		w.SetWritable(true)
